@@ -340,12 +340,16 @@ def check(col, prog, tier, profile, fixture=None):
                     lad["<-e"] = truth
                 if k < 0 and o == "Gt":
                     lad[">+e"] = truth
-        want = {"Inside": {"<-e": True}, "Outside": {"<-e": False, ">+e": True}, "Border": {"<-e": False, ">+e": False}}.get(var)
+        # the regions of the signed relative distance consistent with the tests decided on this path, whatever
+        # their order: Inside = (< -eps), Border = neither test true, Outside = (> +eps)
+        regions = {"Inside": {"<-e": True, ">+e": False}, "Border": {"<-e": False, ">+e": False}, "Outside": {"<-e": False, ">+e": True}}
+        consistent = sorted(r for r, req in regions.items() if all(lad.get(k, v) == v for k, v in req.items()))
+        want = [var] if var in regions else None
         key = "%s|ladder|%s" % (fk(b), var)
-        if want == lad:
+        if lad and consistent == want:
             col.ok("G3", b.loc(), key, "%s" % lad)
         else:
-            col.violation("G3", key, b.loc(), "position returns %s under %s (expected %s)" % (var, lad, want))
+            col.violation("G3", key, b.loc(), "position returns %s on a path whose tests %s admit %s" % (var, lad, consistent))
 
     # ---------------- G2
     b = util.need_body(crate, "Line::new")
